@@ -825,7 +825,12 @@ def _masks_hfs_intersection(sym, ts, Ds, hfs):
         else:  # op[it - 1] == 's':
             lss = [_leg_structure_combine_charges_sum(tt1, DD1) for tt1, DD1, in zip(tt, DD)]
             ma = [_merge_masks_sum(ls1, ms1) for ls1, ms1 in zip(lss, mss)]
+            # a blocked leg can have fewer sectors than the sum of its constituents (sectors dropped in later operations);
+            # keep only charges recorded for this node, as is done for the product above
+            ma = [{tk: mk for tk, mk in ma1.items() if tk in t1[it - 1]} for ma1, t1 in zip(ma, t)]
             reduced_ls = _leg_structure_combine_charges_sum(tuple(keeped_ts[:no]), tuple(keeped_Ds[:no]))
+            ind = [ii for ii, tk in enumerate(reduced_ls.t) if tk in t[0][it - 1] and tk in t[1][it - 1]]
+            reduced_ls = _LegSlices(tuple(reduced_ls.t[ii] for ii in ind), tuple(reduced_ls.D[ii] for ii in ind), tuple(reduced_ls.dec[ii] for ii in ind))
         _mask_falsify_mismatches_(ma[0], ma[1])
         msks[0].insert(io, ma[0])
         msks[1].insert(io, ma[1])
